@@ -135,6 +135,22 @@ def closures(chk, stats):
     if r != 6 or list(vs) != [{"k": 5}]:
         chk.violation("oracle", "a plain probe on a closure variable changed the call: %r %r" % (r, list(vs)), {"source": src})
     pyprog.drop_module(mod)
+    # … also when the function re-binds the variable of the enclosing function itself
+    src2 = ("def outer():\n    n = 1\n    def bump(k):\n        nonlocal n\n        n = n + k\n        return n\n"
+            "    return bump, (lambda: n)\n\nbump, peek = outer()\n")
+    mod = pyprog.make_module(src2, "verif_c04_closure2")
+    chk.count(("closure", "nonlocal"))
+    try:
+        with ptera.probing("bump > n", env=mod.__dict__, overridable=True) as p:
+            p.override(100)
+            r = mod.bump(1)
+        chk.violation("oracle", "overriding the closure variable n (re-bound through nonlocal) was accepted silently: "
+                      "bump(1) = %r, the enclosing variable is now %r" % (r, mod.peek()), {"source": src2})
+    except OverrideException:
+        pass
+    except Exception as e:
+        chk.violation("oracle", "overriding a closure variable raised %s instead of being reported as an override error" % type(e).__name__, {"source": src2})
+    pyprog.drop_module(mod)
 
 
 def interrupted_emission(chk, rng):
